@@ -34,9 +34,36 @@ func genC06Takeover(r *rt.Rand) *world.Scenario {
 	return sc
 }
 
+// genC06Overflow: the list-then-watch client is slow enough to be dropped by the hub (its buffers
+// overflow during a long burst of writes). Whatever it is still given must remain a gap-free
+// continuation of its list: a list at any revision up to the last delivered event must equal the
+// reconstruction.
+func genC06Overflow(r *rt.Rand) *world.Scenario {
+	sc := genC05Overflow(r)
+	sc.Class = "list-then-watch-with-a-dropped-subscriber"
+	slow := sc.Clients[0].Ops[0].Consume
+	if slow == "never" {
+		slow = fmt.Sprintf("lag:%d:every:%d", 9900+r.Intn(230), 20+r.Intn(60))
+	}
+	p, end := prefix+"/", prefix+"0"
+	reader := world.Client{Ops: []world.Op{{K: "list", Key: p, End: end}, {K: "watch", Key: p, Rev: world.Rev{M: "hdrplus", N: 1}, W: 1, Consume: slow}}}
+	for i := 0; i < 3; i++ {
+		// the clock only moves when nothing can run: each pause ends after the writers' current burst
+		reader.Ops = append(reader.Ops, world.Op{K: "sleep", Ms: int64(2 + i)}, world.Op{K: "list", Key: p, End: end})
+	}
+	sc.Clients[0] = reader
+	// the long burst goes over many keys: an event that is lost then shows in the reconstruction
+	sc.Clients[1].Ops[1].Key, sc.Clients[1].Ops[1].Ms = prefix+"/k", int64(500+r.Intn(2000))
+	sc.Clients[1].Ops = append(sc.Clients[1].Ops, world.Op{K: "sleep", Ms: 3}, world.Op{K: "burst", Key: prefix + "/a", Val: "d", Limit: int64(50 + r.Intn(300))})
+	return sc
+}
+
 func genC06(r *rt.Rand, tier string, idx int) *world.Scenario {
 	if idx%10 == 8 {
 		return genC06Takeover(r)
+	}
+	if idx%40 == 27 {
+		return genC06Overflow(r)
 	}
 	sc := &world.Scenario{Prefix: prefix, InitRev: pickInitRev(r), Seed: r.Uint64(), Engine: "memkv", Class: "list-watch-with-writers"}
 	if r.Chance(0.2) {
@@ -173,8 +200,16 @@ func checkListWatch(c *Ctx, P string, onlyFinal bool) (compared int) {
 	}
 	for _, wa := range w.Watchers {
 		lists := byClient[wa.Client]
-		if wa.Refused != "" || wa.Closed || wa.Client == -2 {
+		if wa.Refused != "" || wa.Client == -2 {
 			continue // C05's business
+		}
+		// a stream that was closed (dropped subscriber) still has to be a gap-free continuation of the
+		// list as far as it went: lists up to the revision of its last delivered event are compared
+		lastDelivered := uint64(0)
+		for _, e := range wa.Events {
+			if e.Rev > lastDelivered {
+				lastDelivered = e.Rev
+			}
 		}
 		// the base list is the last list of the same prefix that returned before the watch was registered
 		var base *world.Rec
@@ -186,11 +221,31 @@ func checkListWatch(c *Ctx, P string, onlyFinal bool) (compared int) {
 		if base == nil || wa.Start != base.Hdr+1 {
 			continue
 		}
+		if wa.Closed && lastDelivered > base.Hdr && c.M != nil && !onlyFinal {
+			// no list was served at the revision the closed stream reached: compare with the store's
+			// snapshot at that revision (what a list at that revision returns, C03)
+			var want []world.KV
+			for _, kv := range c.M.Snap(lastDelivered, base.Op.Key, base.Op.End) {
+				want = append(want, world.KV{Key: kv.Key, Val: string(kv.Val), Rev: kv.Rev})
+			}
+			got := reconstruct(base.KVs, wa.Events, lastDelivered)
+			compared++
+			out.probe("closed-stream-compared-with-snapshot")
+			if !equalWKVs(got, want) {
+				out.violate(P, "list-watch-mismatch", "list-watch-mismatch closed-stream",
+					"client %d: list of %q at revision %d + the %d events the stream delivered before it was closed (up to %d) = %v, but the store at revision %d holds %v",
+					wa.Client, wa.Prefix, base.Hdr, len(wa.Events), lastDelivered, got, lastDelivered, want)
+				continue
+			}
+		}
 		for i, l := range lists {
 			if l.Op.Key != wa.Prefix || l.Inv <= wa.RegRet {
 				continue
 			}
 			if onlyFinal && i != len(lists)-1 {
+				continue
+			}
+			if wa.Closed && l.Hdr > lastDelivered {
 				continue
 			}
 			got := reconstruct(base.KVs, wa.Events, l.Hdr)
